@@ -22,6 +22,12 @@ DEFAULT_EXCLUDED_CODEMODS = [
 ]
 
 
+def _compile_id_pattern(pattern: str) -> re.Pattern:
+    """Compile a codemod id pattern where `*` matches any run of characters
+    and everything else is literal. The pattern must match the whole id."""
+    return re.compile(".*".join(re.escape(part) for part in pattern.split("*")))
+
+
 @dataclass
 class CodemodCollection:
     """A collection of codemods that all share the same origin and documentation."""
@@ -80,7 +86,7 @@ class CodemodRegistry:
         if codemod_exclude and not codemod_include:
             base_codemods = {}
             patterns = [
-                re.compile(exclude.replace("*", ".*"))
+                _compile_id_pattern(exclude)
                 for exclude in codemod_exclude
                 if "*" in exclude
             ]
@@ -88,7 +94,7 @@ class CodemodRegistry:
 
             for codemod in self.codemods:
                 if codemod.id in names or any(
-                    pat.match(codemod.id) for pat in patterns
+                    pat.fullmatch(codemod.id) for pat in patterns
                 ):
                     continue
 
@@ -98,12 +104,16 @@ class CodemodRegistry:
             # Remove duplicates and preserve order
             return list(base_codemods.values())
 
-        matched_codemods = []
+        # Each codemod runs at most once, at the position of its first match
+        matched_codemods: dict[str, BaseCodemod] = {}
         for name in codemod_include:
             if "*" in name:
-                pat = re.compile(name.replace("*", ".*"))
-                pattern_matches = [code for code in self.codemods if pat.match(code.id)]
-                matched_codemods.extend(pattern_matches)
+                pat = _compile_id_pattern(name)
+                pattern_matches = [
+                    code for code in self.codemods if pat.fullmatch(code.id)
+                ]
+                for code in pattern_matches:
+                    matched_codemods.setdefault(code.id, code)
                 if not pattern_matches:
                     logger.warning(
                         "Given codemod pattern '%s' does not match any codemods.", name
@@ -111,10 +121,10 @@ class CodemodRegistry:
                 continue
 
             try:
-                matched_codemods.append(self._codemods_by_id[name])
+                matched_codemods.setdefault(name, self._codemods_by_id[name])
             except KeyError:
                 logger.warning(f"Requested codemod to include '{name}' does not exist.")
-        return matched_codemods
+        return list(matched_codemods.values())
 
     def describe_codemods(
         self,
